@@ -49,6 +49,13 @@ type Model struct {
 	root   *inode
 	fds    map[int32]*fdent
 	lastFd int32 // number returned by the most recent successful path_open
+
+	// hintFailed is set by the executor before apply: the implementation's call failed. It is consulted
+	// ONLY where the model tolerates "errno instead of the POSIX answer" (drifted directory descriptors),
+	// so that the model state follows the outcome that actually happened.
+	hintFailed bool
+	// driftedOK: the last applied call went through a drifted directory descriptor and succeeded.
+	driftedOK bool
 }
 
 // initial tree: a = "abcdef", d/ , d/x = "XY"; b does not exist. fd 3 = the pre-opened mount.
@@ -134,7 +141,20 @@ func (m *Model) base(fd int32) (*fdent, *Exp) {
 		return nil, &x
 	}
 	if !m.inSync(e) {
-		return nil, &Exp{Outside: "path call through a directory descriptor whose path was renamed/removed"}
+		// The path recorded for this directory descriptor no longer names the directory it was opened
+		// on (renamed, removed, replaced). POSIX: the call is relative to the ORIGINAL directory. wazero
+		// resolves by the recorded name (FileEntry.Name "can drift"), so an errno is tolerated — typically
+		// ENOENT because nothing is at the old path — but never a result taken from whatever is at the
+		// old path now: when the call succeeds it must have acted on the original directory.
+		if m.hintFailed {
+			x := fail(anyErr)
+			return nil, &x
+		}
+		m.driftedOK = true
+		if !e.ino.linked {
+			x := fail(eNOENT) // nothing can be looked up or created in a removed directory
+			return nil, &x
+		}
 	}
 	return e, nil
 }
@@ -155,6 +175,7 @@ func joinName(e *fdent, p string) string {
 }
 
 func (m *Model) apply(o *Op) Exp {
+	m.driftedOK = false
 	if o.P == ".." || o.P2 == ".." {
 		// leaves the mount: refused (wazero: EPERM from fs.ValidPath), nothing changes
 		return fail(anyErr)
@@ -343,8 +364,12 @@ func (m *Model) apply(o *Op) Exp {
 		if !e.ino.dir {
 			return fail(eBADF, eNOTDIR) // the WASI docs leave the choice open; wazero documents EBADF
 		}
-		if !m.inSync(e) {
-			return Exp{Outside: "fd_readdir on a directory descriptor whose path was renamed/removed"}
+		if !m.inSync(e) && m.hintFailed {
+			// POSIX: lists the original directory. wazero re-opens a directory by its remembered path before
+			// the descriptor's FIRST Readdir and refuses (ENOENT) when the path is gone or names another
+			// directory; an already-read descriptor rewinds in place and lists the original. Tolerated:
+			// an errno. Never: entries or the inode of a different directory.
+			return fail(anyErr)
 		}
 		return Exp{Dir: &dirExp{self: e.ino, buflen: o.Len}}
 
